@@ -162,3 +162,25 @@ CLAIMED["C12"] = dict(
         "verdict), SYNC_FLUSH refusal by BCJ/LZMA1 at the raw encoder level beyond simple_code, the threaded encoder, "
         "xz --flush-timeout/--block-list plumbing. LZMA2 size constants are scaled down in the chunk obligations.")
 NOT_APPLICABLE.pop("C12", None)
+CLAIMED["C09"] = dict(
+   text="Decided parts: (1) estimates are upper bounds - for every dictionary size / option set the bytes the real "
+        "lz_decoder and lz_encoder init functions request from the allocator are <= the value of the corresponding "
+        "memusage function plus the fixed allowance every public memusage function adds; (2) limits are gates - on the real "
+        ".xz Stream decoder and .lzma decoder the payload decoder is initialised only if the needed amount fits the limit, "
+        "otherwise MEMLIMIT_ERROR with nothing allocated, the amount reported, lower limits refused, the exact amount "
+        "accepted and decoding resumed at the same point.",
+   note="NOT covered: the threaded decoder's memlimit_threading/memlimit_stop accounting, .lz and index/file-info decoder "
+        "gates, LZMA coder struct sizes beyond the LZ layer, lzma_stream_encoder_mt_memusage / outq, the xz tool's "
+        "--memlimit adjustment logic (coder.c), real peak heap of a process.")
+CLAIMED["C04"] = dict(
+   text="Memory safety, absence of undefined behaviour, source assert()s and bounded termination (unwinding assertions) are "
+        "checked by CBMC in EVERY obligation; this property re-runs the decoder/parser obligations (header decoders over "
+        "all inputs, stream_decode / .lz / .lzma / auto state machines from arbitrary states, VLI decoder, lzma_code "
+        "protocol: documented codes only) and adds the LZ dictionary primitives as inductive steps from an arbitrary "
+        "valid dictionary (dict_repeat / put / get / wrap) and the completeness of lzma_decoder_reset.",
+   note="THE LARGEST HOLE: lzma_decode() (LZMA payload bits -> dictionary operations) is outside - measured: symex does not "
+        "finish; it is replaced by the assumption that it calls the dictionary primitives with validated distances. Also "
+        "outside: stream_decoder_mt under real concurrency, index/file-info decoders, lzma_str_to_filters, the SSE2 variant "
+        "of dict_repeat, leak checking of full decode runs. dict_repeat content/frame parts are thorough-tier only.")
+for _p in ("C04", "C09"):
+    NOT_APPLICABLE.pop(_p, None)
